@@ -275,7 +275,7 @@ def run(ctx):
         "1-D/2-D float arrays on a regular axis; requested ranges inside (crop) / containing (extend) the axis",
         "a coordinate within 2e-5 of an OPEN end (the functions' own eps=1e-5) is don't-care; a lattice point equal to a requested end as a double is decided exactly",
     ]
-    ctx.must_monitors += ["crop.oracle", "extend.oracle", "width.oracle", "dim_width.post", "width.rejection"]
+    ctx.must_monitors += ["crop.oracle", "extend.oracle", "width.oracle", "dim_width.post", "width.rejection", "content.oracle"]
     ctx.must_reach += [f"arrays/operations.py::{f}" for f in ("crop_dim", "extend_dim", "adjust_dim_width", "crop_dim_width", "extend_dim_width")]
 
     # directed witnesses (findings 11 and 16)
@@ -349,6 +349,103 @@ def run(ctx):
                      nontrivial=stp != int(stp))
             judge_extend(ctx, st, stp, n, a, b, lc, rc, attr, two_d)
     run_chains(ctx)
+    run_contents(ctx)
+
+# ----------------------------------------------------- data content is the caller's business
+CONTENTS = ["nan", "inf", "equals_fill", "zeros", "nan_edges", "all_nan"]
+FILLS = [FILL, 0.0, float("nan"), 1e30]
+
+
+def _same(a, b):
+    return (a == b) or (a != a and b != b)
+
+
+def _content(arr, content):
+    """Give some ORIGINAL samples values that a fill / missing-data marker could be confused with."""
+    d = np.array(arr.data, dtype=float)
+    n = d.shape[0]
+    ks = sorted({0, n // 2, n - 1}) if content != "nan_edges" else sorted({0, n - 1})
+    if content == "all_nan":
+        d[...] = np.nan
+    elif content == "zeros":
+        d[...] = 0.0
+    else:
+        val = {"nan": np.nan, "nan_edges": np.nan, "inf": np.inf, "equals_fill": None}[content]
+        for k in ks:
+            d[k] = val if val is not None else FILL
+    return arr.copy(data=d)
+
+
+def judge_content(ctx, op, start, step, n, content, fill, k_left, k_right, with_attr, two_d):
+    """Samples are located by coordinate, so their values may be anything (NaN, inf, the fill value itself)."""
+    from soundevent.arrays import operations as O
+
+    arr = _content(_mk(start, step, n, with_attr, two_d), content)
+    coords = np.asarray(arr.time.data)
+    orig = np.asarray(arr.data)
+    spec = {"kind": "content", "op": op, "start": start, "step": step, "n": n, "content": content, "fill": fill if fill == fill else "nan",
+            "k_left": k_left, "k_right": k_right, "attr": with_attr, "two_d": two_d}
+    try:
+        if op == "extend_dim":
+            res = O.extend_dim(arr, "time", start=float(coords[0] - k_left * step) if k_left else None, stop=float(coords[-1] + (k_right + 0.5) * step), fill_value=fill)
+        elif op == "extend_twice":
+            mid = O.extend_dim(arr, "time", stop=float(coords[-1] + (k_right + 0.5) * step), fill_value=float("nan"))
+            res = O.extend_dim(mid, "time", stop=float(coords[-1] + (2 * k_right + 1.5) * step), fill_value=fill)
+            if not (np.asarray(mid.time.data)[: len(coords)] == coords).all():
+                return
+            mid_new = {float(c) for c in np.asarray(mid.time.data)[len(coords):]}
+        elif op == "crop_dim":
+            res = O.crop_dim(arr, "time", start=float(coords[min(k_left, n - 1)]), stop=None)
+        else:
+            width = n + k_left + k_right if op != "crop_dim_width" else max(1, n - max(1, k_left))
+            kw = {} if op == "crop_dim_width" else {"fill_value": fill}
+            res = getattr(O, op)(arr, "time", width, **kw)
+    except Exception as e:
+        ctx.violate_exc("content:raises", f"content:raises:{op}:{type(e).__name__}", e, spec=spec)
+        return
+    ctx.mon("content.oracle")
+    gc = np.asarray(res.time.data)
+    got = np.asarray(res.data)
+    pos = {float(c): j for j, c in enumerate(gc)}
+    kept = 0
+    for i, c in enumerate(coords):
+        j = pos.get(float(c))
+        if j is None:
+            if op.startswith("extend") or (op == "adjust_dim_width" and k_left + k_right >= 0):
+                ctx.violate("content:original_kept", f"content:original_kept:{op}", observed={"coord": float(c), "found": None}, expected="present", spec=spec)
+                return
+            continue
+        kept += 1
+        a, b = np.atleast_1d(got[j]), np.atleast_1d(orig[i])
+        if not all(_same(float(x), float(y)) for x, y in zip(a, b)):
+            ctx.violate("content:original_kept", f"content:original_kept:{op}", observed={"coord": float(c), "value": [float(x) for x in a]}, expected=[float(y) for y in b], spec=spec)
+            return
+    olds = {float(c) for c in coords}
+    for j, c in enumerate(gc):
+        if float(c) in olds:
+            continue
+        want = fill
+        if op == "extend_twice" and float(c) in mid_new:
+            want = float("nan")          # created by the first call with its own fill value: an original sample of the second
+        if not all(_same(float(x), want) for x in np.atleast_1d(got[j])):
+            ctx.violate("content:new_is_fill", f"content:new_is_fill:{op}", observed={"coord": float(c), "value": [float(x) for x in np.atleast_1d(got[j])]}, expected=want if want == want else "nan", spec=spec)
+            return
+    if kept == 0:
+        ctx.note("content:no_original_sample_kept")
+
+
+def run_contents(ctx):
+    rng = ctx.rng
+    for _ in range(ctx.scale(600, 2500)):
+        op = rng.choice(["extend_dim", "extend_dim", "extend_twice", "extend_dim_width", "adjust_dim_width", "crop_dim", "crop_dim_width"])
+        st = rng.choice([0.0, 0.5, 10.0]); stp = rng.choice([1.0, 0.5, 0.1, 0.25]); n = rng.choice([3, 5, 10, 33])
+        content = rng.choice(CONTENTS); fill = rng.choice(FILLS)
+        kl, kr = rng.choice([0, 1, 2, 5]), rng.choice([1, 2, 3, 7])
+        attr = rng.random() < 0.7
+        two_d = rng.random() < 0.2
+        ctx.case(("content", op, content, "fill_nan" if fill != fill else f"fill{fill}"), {"kind": "content", "op": op, "start": st, "step": stp, "n": n, "content": content,
+                 "fill": fill if fill == fill else "nan", "k_left": kl, "k_right": kr, "attr": attr, "two_d": two_d})
+        judge_content(ctx, op, st, stp, n, content, fill, kl, kr, attr, two_d)
 
 
 def run_chains(ctx):
@@ -403,5 +500,7 @@ def replay(ctx, w):
         judge_crop(ctx, s["start"], s["step"], s["n"], s["a"], s["b"], s["lc"], s["rc"], s.get("attr", True), s.get("two_d", False))
     elif k == "extend":
         judge_extend(ctx, s["start"], s["step"], s["n"], s["a"], s["b"], s["lc"], s["rc"], s.get("attr", True), s.get("two_d", False))
+    elif k == "content":
+        judge_content(ctx, s["op"], s["start"], s["step"], s["n"], s["content"], float("nan") if s["fill"] == "nan" else s["fill"], s["k_left"], s["k_right"], s["attr"], s["two_d"])
     elif k == "width":
         judge_width(ctx, s["start"], s["step"], s["n"], s["width"], s["position"], s.get("attr", True), s.get("fn", "adjust_dim_width"), s.get("two_d", False))
